@@ -222,6 +222,11 @@ pub fn is_alive(o: Object) -> bool {
     })
 }
 
+/// Address of a heap object's box (the tagged word without its tag bits).
+pub fn addr(o: Object) -> usize {
+    o.as_ptr() as usize
+}
+
 /// Serial number (allocation order) of a registered box.
 pub fn serial_of(o: Object) -> Option<u64> {
     if !o.is_heap_allocated() {
@@ -483,8 +488,8 @@ pub(crate) fn on_deref(ptr: *mut u8) {
 /// still allocated, and nothing the collector still manages is unreachable.
 pub(crate) fn on_gc_run(roots: &[&[Object]], managed_before: usize, survivors: &[Object]) {
     let check = with(|c| c.gc_check);
-    let mut reach: Vec<usize> = Vec::new();
-    let mut dead_reach: Vec<usize> = Vec::new();
+    let mut reach: std::collections::HashSet<usize> = std::collections::HashSet::new();
+    let mut dead_reach: std::collections::HashSet<usize> = std::collections::HashSet::new();
     if check {
         let mut work: Vec<Object> = Vec::new();
         for r in roots {
@@ -500,10 +505,10 @@ pub(crate) fn on_gc_run(roots: &[&[Object]], managed_before: usize, survivors: &
                 continue;
             }
             if !is_alive(o) {
-                dead_reach.push(addr);
+                dead_reach.insert(addr);
                 continue;
             }
-            reach.push(addr);
+            reach.insert(addr);
             if o.tag() == Type::Array {
                 for v in o.as_vec() {
                     if v.is_heap_allocated() {
